@@ -1,5 +1,5 @@
 // vx: label-insensitive
-// Bounded replay of the terminal UI fold: the WHOLE real state.rs and frame_store.rs (test modules cut off, otherwise verbatim)
+// Bounded replay of the terminal UI fold and the headless frame summaries: the WHOLE real state.rs, frame_store.rs and summary.rs (test modules cut off, otherwise verbatim)
 // consume enumerated frame sequences built from one or two sample frames of EVERY EventKind variant (generated from the
 // real enum on every run), with arbitrary seq orders, mixed streams, unknown ids, terminal frames without a start and
 // multi-byte text at the truncation boundaries.
@@ -10,6 +10,7 @@ pub mod rip_kernel { pub use super::{CheckpointAction, Event, EventKind, Provide
 pub use frame_store::FrameStore;
 //@@ file crates/rip-tui/src/state.rs mod=state uses=rip_kernel,serde_json
 use state::TuiState;
+//@@ file crates/rip-tui/src/summary.rs mod=summary uses=rip_kernel
 
 pub trait Sample { fn sample(k: usize, field: &str) -> Self; }
 fn texts() -> [String; 4] { ["a".to_string(), "h\u{e9}llo w\u{f6}rld \u{20ac}\u{1f600}!".to_string(), format!("{}\n1234567", "a\u{20ac}\u{1f600}\u{e9}".repeat(440)), String::new()] }   // the third is 4408 bytes of 1/3/4/2-byte characters, sized so that the 4096-byte tail of two copies starts inside a character: two of them pass the 8 KiB preview bound, cut inside a character
@@ -46,6 +47,14 @@ fn check(frames: &[Event], max_frames: usize, max_out: usize) -> Option<String> 
         let fr = frames.to_vec();
         std::panic::catch_unwind(move || { let mut st = TuiState::new(max_frames, max_out); for e in fr { st.update(e); } st }).map_err(|e| e.downcast_ref::<String>().cloned().or_else(|| e.downcast_ref::<&str>().map(|s| s.to_string())).unwrap_or_else(|| "panic".into()))
     };
+    // headless summaries of every frame: total and deterministic
+    for e in frames {
+        let e1 = e.clone();
+        match std::panic::catch_unwind(move || (summary::event_type(&e1).to_string(), summary::event_summary(&e1))) {
+            Err(p) => return Some(format!("event_summary panicked on a {} frame: {}", summary::event_type(e), p.downcast_ref::<String>().cloned().or_else(|| p.downcast_ref::<&str>().map(|s| s.to_string())).unwrap_or_default())),
+            Ok(x) => if x != (summary::event_type(e).to_string(), summary::event_summary(e)) { return Some("event_summary gave two different texts for one frame".into()); }
+        }
+    }
     let a = match run(frames) { Ok(s) => s, Err(p) => return Some(format!("the fold panicked: {p}")) };
     let b = run(frames).unwrap();
     if snapshot(&a) != snapshot(&b) { return Some("the same frames gave two different states".into()); }
